@@ -1688,9 +1688,7 @@ impl<'p, C: SimCfg> World<'p, C> {
                 for sp in 0..self.nodes.len() {
                     let NodeKind::Spectator { host, .. } = plan.nodes[sp].kind else { continue };
                     let Some(stop) = plan.nodes[sp].tick.stop_us else { continue };
-                    let per = plan.nodes[host].tick.period_us.max(1);
-                    // frames the host confirmed since the spectator went silent (upper bound: ticks)
-                    if self.now < stop + 400 * per {
+                    if self.now < stop {
                         continue;
                     }
                     let Sess::Peer(hs) = &self.nodes[host].sess else { continue };
@@ -1701,8 +1699,12 @@ impl<'p, C: SimCfg> World<'p, C> {
                     let g = self.nodes[host].game.g;
                     *self.probes.extra.entry("silent_spectators_checked").or_insert(0) += 1;
                     if let Some((state, pending)) = st {
-                        let host_frames_since = self.nodes[host].game.g;
-                        if state < 3 && host_frames_since > 300 {
+                        // the unacknowledged inputs ARE the frames confirmed since the spectator went
+                        // silent: once they exceed the cap (plus what one call may add) the endpoint
+                        // must have been disconnected - however slowly the host itself advances
+                        if state >= 3 {
+                            *self.probes.extra.entry("silent_spectators_cut_loose").or_insert(0) += 1;
+                        } else if pending > 128 + plan.cfg.max_prediction + 8 {
                             self.violate("c18.silent_spectator_kept", host, g, format!("spectator node {sp} stopped polling at {} ms; {} ms later its host still treats it as connected (endpoint state {state}, {pending} unacknowledged inputs)", stop / 1000, (self.now - stop) / 1000));
                         }
                     }
